@@ -66,12 +66,27 @@ class TLCResult:
         }
 
 
+def _closure(module: str, seen: set[str]) -> None:
+    path = os.path.join(SPEC, module + ".tla")
+    if module in seen or not os.path.exists(path):
+        return
+    seen.add(module)
+    with open(path) as f:
+        text = f.read()
+    for m in re.finditer(r"^\s*(?:EXTENDS|INSTANCE)\s+([^\n]*)", text, re.M):
+        for name in re.split(r"[,\s]+", m.group(1)):
+            if name and name != "WITH":
+                _closure(name, seen)
+
+
 def _spec_digest(module: str, cfg_text: str, args: list[str]) -> str:
+    """Hash of the module, every module of /verif/spec it (transitively) extends, the configuration and the arguments."""
+    mods: set[str] = set()
+    _closure(module, mods)
     h = hashlib.sha256()
-    for name in sorted(os.listdir(SPEC)):
-        if name.endswith(".tla"):
-            with open(os.path.join(SPEC, name), "rb") as f:
-                h.update(name.encode() + b"\0" + f.read() + b"\0")
+    for name in sorted(mods):
+        with open(os.path.join(SPEC, name + ".tla"), "rb") as f:
+            h.update(name.encode() + b"\0" + f.read() + b"\0")
     h.update(module.encode() + b"\0" + cfg_text.encode() + b"\0" + " ".join(args).encode())
     return h.hexdigest()[:32]
 
